@@ -567,7 +567,7 @@ pub fn gen(seed: u64, count: usize, thorough: bool) -> String {
             } else {
                 g.r.range(1, 8)
             };
-            match g.r.below(17) {
+            match g.r.below(18) {
                 0 => {
                     // burst: n tasks ready at once
                     for _ in 0..n {
@@ -694,6 +694,22 @@ pub fn gen(seed: u64, count: usize, thorough: bool) -> String {
                             let loc = g.kind(mode);
                             let t = g.task(loc, vec![]);
                             evs[e2].push(format!("s{t}"));
+                        }
+                    }
+                }
+                16 => {
+                    // a poll that uses up the cooperative budget (128 receives) and is then deferred at an await
+                    // that cannot complete yet: the task registers there in a later poll that observes nothing
+                    if big {
+                        let k = g.cond_of(1);
+                        let k2 = g.cond_of(0);
+                        let loc = g.kind(mode);
+                        let t = g.task(loc, vec![rep(format!("a{k}"), 128), format!("a{k2}")]);
+                        evs[e].push(rep(format!("w{k}"), 128));
+                        evs[e].push(format!("s{t}"));
+                        let e2 = g.r.range(e as u64, nev as u64 - 1) as usize;
+                        if e2 > e {
+                            evs[e2].push(format!("w{k2}"));
                         }
                     }
                 }
